@@ -1,13 +1,14 @@
 #!/bin/bash
-# usage: seedall.sh [pattern]  -- re-test every seeded change under /verif/seeded (matching the pattern) in an isolated copy:
+# usage: seedall.sh [pattern] [tag]   (a tag gives the run its own scratch directory and result file, so that several can run side by side)  -- re-test every seeded change under /verif/seeded (matching the pattern) in an isolated copy:
 # a copy of /verif and a scratch worktree of /repo under /tmp/seedrun (removed at the end).  /repo itself is not touched.
 pat=${1:-C}
-S=/tmp/seedrun
+tag=${2:-}
+S=/tmp/seedrun$tag
 rm -rf $S; mkdir -p $S
 rsync -a --exclude .git --exclude replays /verif/ $S/verif/
 git -C /repo worktree add --detach $S/repo HEAD >/dev/null 2>&1 || exit 2
 export VERIF_REPO=$S/repo
-out=/verif/seeded/RESULTS.txt
+out=/verif/seeded/RESULTS$tag.txt
 : > $out.new
 for d in $(ls /verif/seeded | grep "^$pat" | sort); do
   [ -f /verif/seeded/$d/patch.diff ] || continue
